@@ -49,6 +49,9 @@ def push_half(x, j):
         if e[0] in ('or', 'xor') and (a == 0 or b == 0):
             return b if a == 0 else a
         return sym(e[0], 32, a, b)
+    if e[0] == 'catl' and len(e) == 3:
+        h = e[1 + j]                      # a 64-bit word assembled from two 32-bit halves
+        return h if is_int(h) or not (isinstance(h, Sym) and h.e[0] == 'part' and h.e[1] == 32) else push_half(h.e[3], h.e[2])
     if e[0] == 'shl' and e[1] == 64 and e[3] == 32:
         return 0 if j == 0 else push_half(e[2], 0)
     if e[0] == 'lshr' and e[1] == 64 and e[3] == 32:
